@@ -136,6 +136,19 @@ Definition sub_of (latest : mapper) (mapped_key field_name : pystr) : subsel :=
   | e => SubMap e
   end.
 
+(* str(DoNotSerialize): what f"{mapped_key}._mapper" starts with when the field is mapped to the class
+   DoNotSerialize -- "<class 'typedpy.serialization.mappers.DoNotSerialize'>" *)
+Definition donot_repr : pystr := [60; 99; 108; 97; 115; 115; 32; 39; 116; 121; 112; 101; 100; 112; 121; 46; 115; 101; 114; 105; 97; 108; 105; 122; 97; 116; 105; 111; 110; 46; 109; 97; 112; 112; 101; 114; 115; 46; 68; 111; 78; 111; 116; 83; 101; 114; 105; 97; 108; 105; 122; 101; 39; 62].
+
+(* mapped_key of a nested entry on the deserialization side:
+   _apply_mapper(latest_mapper, field_name, previous_mapper, for_serialization, is_self=True) *)
+Definition mapped_key_of (latest : mapper) (fname : pystr) : res pystr :=
+  match apply_key latest fname with
+  | Key s => Ok s
+  | DoNot => Ok donot_repr
+  | Sub _ => Raise Unmodelled   (* key built from a dict *)
+  end.
+
 (* one iteration of the loop of add_mapper_to_aggregation(latest, previous, for_serialization)
    over previous.items(); [rec sub v] is the recursive call for a nested mapper *)
 Definition add_step (for_ser : bool) (latest : mapper) (rec : mapper -> mval -> res mval)
@@ -149,11 +162,7 @@ Definition add_step (for_ser : bool) (latest : mapper) (rec : mapper -> mval -> 
       match ends_with_suffix k with
       | None => Raise ValueError
       | Some fname =>
-          mk <- (if for_ser then Ok fname
-                 else match apply_key latest fname with
-                      | Key s => Ok s
-                      | _ => Raise Unmodelled   (* key built from a non-str *)
-                      end) ;;
+          mk <- (if for_ser then Ok fname else mapped_key_of latest fname) ;;
           match sub_of latest mk fname with
           | SubNone => Ok (alist_set acc (mk ++ suffix) v')
           | SubBad => Raise TypeError
